@@ -1870,6 +1870,9 @@ def _qr(ex, a, k):
     ex.events.append(('qr', A, Q, R))
     T.derive(Q, A)
     T.derive(R, A)
+    # provenance: each factor is a value of its own (dropping Q -- e.g. a 1x1 unit phase -- must be visible to consumption checks)
+    Q.prov = Q.prov | frozenset(['Q#%d' % Q.tid])
+    R.prov = R.prov | frozenset(['R#%d' % Q.tid])
     return (Q, R)
 
 
@@ -1902,6 +1905,9 @@ def _svd(ex, a, k):
     ex.events.append(('svd', rec))
     for t in (U, S, V):
         T.derive(t, A)
+    U.prov = U.prov | frozenset(['U#%d' % S.tid])
+    S.prov = S.prov | frozenset(['S#%d' % S.tid])
+    V.prov = V.prov | frozenset(['V#%d' % S.tid])
     return (U, S, V)
 
 
